@@ -111,6 +111,15 @@ def build():
     defs.append(("name_write_max", "N", "%d%%N" % num(m.group(1))))
     one(r"self\.zonefile\.buf\.require_token\(\)\?;\s*if\s+self\.zonefile\.buf\.skip_at_token\(\)\?\s*\{\s*return\s+RelativeName::empty_bytes\(\)\s*\.chain\(self\.zonefile\.origin\(\)\?\)", body, "scan_name free standing @")
     defs.append(("scan_name_at_is_origin", "bool", "true"))
+    body = fn_body(inp, "scan_charstr_entry", after="impl Scanner for EntryScanner")
+    one(r"let\s+mut\s+write\s*=\s*0;\s*loop\s*\{\s*self\.convert_charstr\(&mut write\)\?;\s*if\s+self\.zonefile\.buf\.is_line_feed\(\)\s*\{\s*break;", body, "scan_charstr_entry reads char-strings up to the line feed")
+    body = fn_body(inp, "convert_charstr", after="impl EntryScanner")
+    one(r"^\s*self\.zonefile\.buf\.require_token\(\)\?;\s*let\s+start\s*=\s*\*write;", body, "convert_charstr requires a token")
+    defs.append(("charstr_entry_requires_token", "bool", "true"))
+    m = one(r"let\s+latest\s*=\s*\*write\s*\+\s*(\d+)\s*;", body, "convert_charstr latest")
+    defs.append(("charstr_latest", "N", "%d%%N" % num(m.group(1))))
+    if len(re.findall(r"if\s+\*write\s*>\s*latest", body)) != 2:
+        raise GenError("convert_charstr length checks changed")
     body = fn_body(inp, "_scan_entry", after="impl<'a> EntryScanner")
     one(r"peek_symbol\(\)\s*==\s*Some\(Symbol::Char\('\$'\)\)", body, "control entry test")
     defs.append(("ch_dollar", "N", "36%N"))
@@ -164,6 +173,11 @@ def build():
     defs.append(("generic_lower_hex_with_spaces", "bool", "true"))
     body = fn_body(rd, "scan_without_marker", after="impl<Octs> UnknownRecordData<Octs>")
     one(r"let\s+len\s*=\s*u16::scan\(scanner\)\?;\s*let\s+data\s*=\s*scanner\.convert_entry\(base16::SymbolConverter::new\(\)\)\?;\s*if\s+data\.as_ref\(\)\.len\(\)\s*!=\s*usize::from\(len\)", body, "generic form reader")
+    # ---- SVCB key charset (inclusive ranges)
+    sv = strip_comments(read("src/rdata/svcb/params.rs"))
+    body = fn_body(sv, "allowed_key_charset")
+    one(r"^\s*\(0x61\.\.=0x7A\)\.contains\(&ch\)\s*\|\|\s*\(0x30\.\.=0x39\)\.contains\(&ch\)\s*\|\|\s*0x2D\s*==\s*ch\s*$", body, "SvcParamKey charset a-z 0-9 -")
+    defs.append(("svcb_key_charset_inclusive", "bool", "true"))
     # ---- unsigned scanner
     body = scan[scan.index("macro_rules! impl_scan_unsigned"):scan.index("impl_scan_unsigned!(u8)")]
     one(r"res\s*=\s*res\.checked_mul\(10\)\.ok_or_else", body, "unsigned scan checked_mul")
